@@ -93,6 +93,10 @@ R.contract(
     raises="none",
 )
 
+# observe_retrieval is verified for items given as (id, score) tuples (input-shape invariant of that contract); the
+# adapter's other accepted shapes (dict with id/score, object with .id/.score) are covered by its own variants below:
+# all of them yield the same (str id, float score) pair.  Shapes not covered: dicts keyed episode_id/node_id/target_id
+# or similarity, objects without score, the repr() fallback.
 ITEMS = "List[Tuple[str, float]]"
 R.contract(
     GEL + "_as_id_score", "C18",
@@ -101,6 +105,26 @@ R.contract(
     ensures=[],
     pure_result="(item[0], item[1])",
     raises="none",
+    unreachable_ok=["if isinstance(item, dict)", "for idk in", "return (repr(item), 0.0)"],   # other input shapes
+)
+R.dictrec("ItemDict", {"id": "str", "score": "float"})
+R.contract(
+    GEL + "_as_id_score", "C18", name="_as_id_score[dict]", callee=False,
+    types={"item": "ItemDict"},
+    returns="Tuple[str, float]",
+    ensures=[("id-and-score", "result[0] == item['id'] and result[1] == item['score']")],
+    raises="none",
+    unreachable_ok=["return (str(item[0]), float(item[1]))", "for k in", "for idk in", "return (repr(item), 0.0)"],
+)
+R.objtype("ItemObj", {"id": "str", "score": "float"})
+R.contract(
+    GEL + "_as_id_score", "C18", name="_as_id_score[object]", callee=False,
+    types={"item": "ItemObj"},
+    returns="Tuple[str, float]",
+    ensures=[("id-and-score", "result[0] == item.id and result[1] == item.score")],
+    raises="none",
+    unreachable_ok=["return (str(item[0]), float(item[1]))", "if 'id' in item", "for k in", "if hasattr(item, 'similarity')",
+                    "return (repr(item), 0.0)"],
 )
 
 # ------------------------------------------------------------------------------------------------ tick
@@ -232,6 +256,10 @@ def _frame(e, u, lo, hi):
 
 
 COUNT_INV = "cap_left == pair_cap - pairs_updated and pairs_updated >= 0 and cap_left >= 0"
+# pairs visited so far <= number of pairs (a, b), a < b, with a < i (plus the b's already seen in row i): with
+# n = len(used) and r = n - i rows left,  2 * pairs + r * (r - 1) <= n * (n - 1)
+TRI_OUTER = "2 * pairs_updated + (len(used) - _a) * (len(used) - _a - 1) <= len(used) * (len(used) - 1)"
+TRI_INNER = "2 * pairs_updated + (len(used) - i) * (len(used) - i - 1) <= len(used) * (len(used) - 1) + 2 * _b"
 
 R.contract(
     GEL + "observe_retrieval", "C18",
@@ -245,6 +273,7 @@ R.contract(
          "result['pairs_updated'] == 0 and result['k_used'] == 0)"),
         ("metrics", "implies(" + ENABLED + ", result['k_used'] == len(gused) and result['k_in'] == len(items))"),
         ("pairs-within-cap", "0 <= result['pairs_updated'] and result['pairs_updated'] <= " + PCAP),
+        ("pairs-at-most-all-pairs-of-used", "2 * result['pairs_updated'] <= result['k_used'] * (result['k_used'] - 1)"),
         ("items-untouched", "seq_eq(items, old(items))"),
         ("nothing-else-changed", NODES_SAME + " and " + META_SAME +
          " and state.graph['meta']['edges_count'] == old(state.graph['meta']['edges_count'])"),
@@ -258,8 +287,8 @@ R.contract(
     # comprehension + permutation + order axiom families in scope every loop obligation costs z3 > 10 s).
     asserts={"used": ["check:" + c for c in _used_facts("used")] + ["ghost:gused = used", "forget-axioms:used"]},
     loops={
-        0: {"index": "_a", "inv": [COUNT_INV] + _frame("edges", "used", "clamp_min", "clamp_max")},
-        1: {"index": "_b", "inv": [COUNT_INV] + _frame("edges", "used", "clamp_min", "clamp_max")},
+        0: {"index": "_a", "inv": [COUNT_INV, TRI_OUTER] + _frame("edges", "used", "clamp_min", "clamp_max")},
+        1: {"index": "_b", "inv": [COUNT_INV, TRI_INNER] + _frame("edges", "used", "clamp_min", "clamp_max")},
     },
     locals={"norm": ITEMS, "used": ITEMS, "pairs_updated": "int", "cap_left": "int"},
     abstract_str_order=True,   # ids are only ever compared: their order is an arbitrary total order here (see interp.abstract_str_le)
